@@ -95,6 +95,39 @@ def is_hash_type(s):
         or "std::collections::hash::map::" in s or "std::collections::hash::set::" in s
 
 
+HASH_TOP = ("std::collections::HashMap<", "std::collections::HashSet<", "std::collections::hash_map::", "std::collections::hash_set::",
+            "std::collections::hash::map::", "std::collections::hash::set::")
+ORDER_FREE_SELF = ("std::collections::HashMap<", "std::collections::HashSet<", "std::collections::BTreeMap<", "std::collections::BTreeSet<")
+
+
+def _strip_ref(t):
+    t = t.strip()
+    while t.startswith("&"):
+        t = t[1:].lstrip()
+        if t.startswith("mut "):
+            t = t[4:]
+        if t.startswith("'"):
+            t = t.split(" ", 1)[1] if " " in t else t
+    return t
+
+
+def handed_over_iterables(c):
+    """Generic arguments of a trait-method callee (other than Self) that are themselves a hash collection or one of its iterators:
+    `String::extend(set)`, `Vec::from_iter(map)`, `a.chain(set)`, `iter.eq(set)` ... iterate it inside the callee, in hash order.
+    Not reported when the receiver is itself an order-free collection (BTree*/Hash*)."""
+    # the std APIs whose extra generic parameter is an `IntoIterator` they consume (for `collect`, `sum`, `unzip` ... the extra
+    # parameter is the *result* type, not an iterable)
+    consuming = {"std::iter::Extend": ("extend",), "std::iter::FromIterator": ("from_iter",),
+                 "std::iter::Iterator": ("chain", "zip", "cmp", "partial_cmp", "eq", "ne", "lt", "le", "gt", "ge")}
+    if c.get("name") not in consuming.get(c.get("trait") or "", ()):
+        return []
+    args = c.get("args", [])
+    selfty = _strip_ref(c.get("self", "") or (args[0] if args else ""))
+    if selfty.startswith(ORDER_FREE_SELF) or selfty.startswith(HASH_TOP):
+        return []
+    return [a for a in args[1:] if _strip_ref(a).startswith(HASH_TOP)]
+
+
 def hash_order_sites(f):
     """Call sites in fn fact f whose callee is an order-exposing method of a hash collection."""
     out = []
@@ -110,6 +143,8 @@ def hash_order_sites(f):
             res = (c.get("res") or {})
             hay = " ".join([c["path"], selfty, res.get("path", ""), res.get("impl_self", "") or ""])
             recv_hash = is_hash_type(hay) or (name == "into_iter" and is_hash_type(args))
+            for a in handed_over_iterables(c):
+                out.append({"callee": c["path"], "name": "%s(<hash iterable>)" % name, "line": t.get("line"), "self": a, "dty": t.get("dty")})
             if not recv_hash:
                 continue
             if name in ORDER_EXPOSING or (name == "into_iter"):
